@@ -351,7 +351,7 @@ pub const REQUIRED: &[&str] = &[
 
 pub fn run(cx: &mut Ctx) {
     cx.require(REQUIRED);
-    cx.rule = "directed archives (empty, empty messages, BOM-like first characters) + exhaustive: every message length 0..=8 in every format/endian combination, every BMP scalar value except NUL/surrogates as a one-character message and as the first character of a two-character message (UTF-16 format) + random archives (0..=40 keys quick, 0..=200 thorough; messages from all of Unicode for the UTF-16 format, from the Shift-JIS domain for the legacy format). Each archive is serialized, read by the independent reference reader (alignment, labels, terminators, content) and re-parsed by the library. non-trivial = archive with >=2 keys and >=1 non-ASCII message; distinct by content hash".into();
+    cx.rule = "directed archives (empty, empty messages, BOM-like first characters) + exhaustive: every message length 0..=8 in every format/endian combination, every BMP scalar value except NUL/surrogates as a one-character message and as the first character of a two-character message (UTF-16 format) + random archives (0..=40 keys quick, 0..=200 thorough; messages from all of Unicode for the UTF-16 format, from the Shift-JIS domain for the legacy format). Each archive is serialized, read by the independent reference reader (alignment, labels, terminators, content) and re-parsed by the library. non-trivial = archive with >=2 keys and >=1 non-ASCII message; archives with 255..65537 keys; UTF-16 messages of 255..8193 units with an astral character across the boundary; Latin-1-only messages; text the Shift-JIS parts cannot express (must be refused or kept intact); distinct by content hash".into();
     // ---- directed
     for unicode in [false, true] {
         for be in [false, true] {
